@@ -948,6 +948,9 @@ def compile_and_run(query_context, user_namespace, unit_test_mode=False):
 
 
     def mad_sum(*args):
+        if len(args) == 1 and is_str6(args[0]):
+            # Like in mad_max / mad_min a single string is a cell to aggregate. The builtin would take the empty string for an empty sequence and return 0.
+            return SUM(args[0])
         try:
             return sum(*args)
         except TypeError:
